@@ -431,15 +431,119 @@ fn operator_conventions(rep: &Report) {
     }
 }
 
+/// The same grid lists through the gridshift OPERATOR, the whole point lattice applied as ONE set (in two
+/// orders): every tuple must get the correction of the first grid containing it (then the first within the
+/// margin, then the null grid), whatever grid served its neighbours in the set
+fn operator_grid_lists(rep: &Report) {
+    let ga = GeoDeg { lat_s: 54., lat_n: 58., lon_w: 8., lon_e: 16., dlat: 1., dlon: 1. };
+    let gb = GeoDeg { lat_s: 55., lat_n: 57., lon_w: 10., lon_e: 13., dlat: 0.5, dlon: 0.5 };
+    let gc = GeoDeg { lat_s: 56., lat_n: 60., lon_w: 12., lon_e: 20., dlat: 2., dlon: 2. };
+    let grids: Vec<(Arc<dyn Grid>, RefGrid)> = vec![make_base(&ga, 2, 11), make_base(&gb, 2, 22), make_base(&gc, 2, 33)];
+    let names = ["a.datum", "b.datum", "c.datum"];
+    let mut ctx = GridCtx::default();
+    for (n, g) in names.iter().zip(grids.iter()) {
+        ctx.add_grid(n, g.0.clone());
+    }
+    let mut points: Vec<(f64, f64)> = Vec::new();
+    let mut la = 53.;
+    while la <= 61.5 {
+        let mut lo = 7.;
+        while lo <= 21.5 {
+            let (l, p) = (f64::to_radians(lo), f64::to_radians(la));
+            let near = grids.iter().any(|(_, g)| {
+                [g.lat_n, g.lat_s, g.lat_n + 0.5 * g.dlat, g.lat_s - 0.5 * g.dlat].iter().any(|b| (p - b).abs() < 1e-10) || [g.lon_w, g.lon_e, g.lon_w - 0.5 * g.dlon, g.lon_e + 0.5 * g.dlon].iter().any(|b| (l - b).abs() < 1e-10)
+            });
+            if !near {
+                points.push((l, p));
+            }
+            lo += 0.3;
+        }
+        la += 0.35;
+    }
+    let subsets: Vec<Vec<usize>> = (1..8usize).map(|m| (0..3).filter(|i| m & (1 << i) != 0).collect()).collect();
+    for subset in subsets {
+        let mut perms: Vec<Vec<usize>> = vec![vec![]];
+        for _ in 0..subset.len() {
+            perms = perms.into_iter().flat_map(|p| subset.iter().filter(|i| !p.contains(i)).map(|i| { let mut q = p.clone(); q.push(*i); q }).collect::<Vec<_>>()).collect();
+        }
+        for order in perms {
+            for null in [false, true] {
+                let mut list: Vec<&str> = order.iter().map(|&i| names[i]).collect();
+                if null {
+                    list.push("@null");
+                }
+                let def = format!("gridshift grids={}", list.join(", "));
+                let Ok(op) = ctx.op(&def) else {
+                    rep.violation("grid operator with a list of generated grids cannot be instantiated", json!({"def": def}));
+                    continue;
+                };
+                for reversed in [false, true] {
+                    let pts: Vec<(f64, f64)> = if reversed { points.iter().rev().cloned().collect() } else { points.clone() };
+                    let mut data: Vec<Coor4D> = pts.iter().map(|&(l, p)| Coor4D([l, p, 7., 2000.])).collect();
+                    let n = match catch(|| ctx.apply(op, Fwd, &mut data)) {
+                        Ok(Ok(n)) => n,
+                        other => {
+                            rep.violation("grid operator with a list of grids panics or errs", json!({"def": def, "result": format!("{other:?}")}));
+                            continue;
+                        }
+                    };
+                    rep.eval(pts.len() as u64);
+                    let mut expected_count = 0;
+                    for (k, &(l, p)) in pts.iter().enumerate() {
+                        let mut want: Option<Vec<f64>> = None;
+                        for margin in [0.0, 0.5] {
+                            if want.is_some() {
+                                break;
+                            }
+                            for &i in &order {
+                                if grids[i].1.contains(l, p, margin) {
+                                    want = Some(grids[i].1.at(l, p));
+                                    break;
+                                }
+                            }
+                        }
+                        if want.is_none() && null {
+                            want = Some(vec![0., 0.]);
+                        }
+                        let got = data[k].0;
+                        let ok = match &want {
+                            Some(w) => {
+                                expected_count += 1;
+                                (got[0] - (l + w[0])).abs() <= 1e-13 && (got[1] - (p + w[1])).abs() <= 1e-13 && got[2] == 7. && got[3] == 2000.
+                            }
+                            None => got[0].is_nan() && got[1].is_nan(),
+                        };
+                        if !ok {
+                            rep.violation(
+                                &format!("gridshift over a grid list, set applied in one call: a tuple does not get the correction of the first containing grid (then margin{}) / {} grids", if null { ", then null" } else { "" }, order.len()),
+                                json!({"def": def, "set_order": if reversed {"reversed"} else {"lattice order"}, "index_in_set": k, "lon_deg": l.to_degrees(), "lat_deg": p.to_degrees(), "observed": got,
+                                       "expected": want.map(|w| vec![l + w[0], p + w[1]])}),
+                            );
+                            break;
+                        }
+                    }
+                    if n != expected_count {
+                        rep.violation(&format!("gridshift over a grid list: count is not the number of tuples covered / {} grids", order.len()), json!({"def": def, "count": n, "expected": expected_count}));
+                    }
+                }
+            }
+        }
+    }
+}
+
 pub fn run(tier: Tier) -> Report {
     let rep = Report::new("C08", tier, "exploration");
     rep.rule("30 grid geometries x 1..3 bands x 5 text layouts: every cell x 25 in-cell positions + 1e-9 deg either side of inner cell edges + margin (0.25, 0.49 cells) and outside \
-              (0.51, 2 cells) points; all orders of all non-empty subsets of 3 overlapping grids x null grid x a 0.3 deg point lattice; 6 NTv2 tree shapes x all file orders x both byte \
+              (0.51, 2 cells) points; all orders of all non-empty subsets of 3 overlapping grids x null grid x a 0.3 deg point lattice (through grids_at point by point, and through the gridshift operator with the whole lattice as one set in two orders); 6 NTv2 tree shapes x all file orders x both byte \
               orders x a point lattice; operator conventions on generated grids. distinct_nontrivial = distinct interpolated value bit patterns");
     rep.assume("reference = harness bilinear interpolation on node values rounded exactly as the documented unit conversion prescribes (f32); tolerance 1e-12 relative to the largest node value");
     let outcomes = Mutex::new(HashSet::new());
     base_grid_checks(&rep, &outcomes);
     grid_lists(&rep);
+    match catch(|| operator_grid_lists(&rep)) {
+        Ok(()) => {}
+        Err(p) => rep.violation(&format!("panic in a grid operator: {}", panic_class(&p)), json!({"panic": p})),
+    }
     ntv2_trees(&rep, &outcomes);
     match catch(|| operator_conventions(&rep)) {
         Ok(()) => {}
